@@ -5,7 +5,7 @@ V = os.path.dirname(os.path.dirname(os.path.abspath(__file__)))
 TECH = 'symbolic execution of clang LLVM IR (own engine symir) + z3 SMT: unsat of negated property per path/size; counterexamples replayed natively'
 CLAIMED = {
  'C15': dict(design='4/C15', text='Bounded symbolic check: argument is a 32-bit bit-vector; every feasible path of the compiled isprime (n<2^16), factor/primes/nextprime (small n), '
-             'nextpow2/ispow2 (all positive int) is compared by z3 with the number-theoretic definition; the sqrt(n) loop guard is decided for all 32-bit (n,d) by one inductive step.',
+             'nextpow2/ispow2 (all positive int) is compared by z3 with the number-theoretic definition; the sqrt(n) loop guard is decided for all 32-bit (n,d) by one inductive step; isprime at ~30 adversarial values >= 2^16 (strong pseudoprimes, Carmichael numbers, semiprimes next to 2^16 / 2^32, largest 32-bit primes) through the interpreted code.',
              note='Trusts clang -O1 IR == shipped g++ build (differential self-test per run), symir, z3. Functional value for n >= 2^16 only through the guard step (loops of 6542 iterations not unrolled).'),
  'C04': dict(design='4/C04', text='Bounded symbolic check of the compiled slice code: slice triples (both triples for slice-to-slice assignment) are 32-bit bit-vectors over the whole int range, '
              'element values symbolic; per array length n <= 3 (quick) / 5 (thorough) every feasible path is decided by z3 against python slice semantics: throw-iff-stated, count, element identity, '
@@ -74,7 +74,8 @@ CLAIMED = {
  'C17': dict(design='4/C17', text='PARTIAL. Decided: integer arange with stop symbolic in [-12,12] and (start, step) enumerated (5x10 quick, all 25x24 thorough): count and every value equal python range on every path (the '
              'int->double->round->int chain modelled with integer-part semantics); upsample / downsample / zeropad / delayseq / flip / repelem with symbolic factor, phase, length or delay and symbolic elements: exactly the designated '
              'elements (same terms), zeros elsewhere, documented length, throw only outside the documented range; sum, mean, rms, stddev, norm 1/2, dot, cumsum, abs2 and the complex variants as real-arithmetic identities; '
-             'min / max / argmin / argmax / peak2peak on every comparison path; linspace affine with exact end points; complex/real+imag and conj round trips; angle at the axes / signed-zero special points.',
+             'min / max / argmin / argmax / peak2peak on every comparison path; linspace affine with exact end points; complex/real+imag and conj round trips; angle at the axes / signed-zero special points; cumsum forward / reverse, real / complex: every element is a pure summation tree over exactly its prefix / suffix (error bounded by its own scale); '
+             'every power overload: array overloads return element-wise the very term of the scalar overload, complex power is the polar form on a single path, integer powers 2, -1, 0, 1 exact, and 13 overloads x 22 special points (signed zeros, both sides of the negative real axis, origin, 1e-160 / 1e150 magnitudes) within 16 eps of the principal value.',
              note='NOT decided (stated as outside): every "libm value within a few ulp" clause (exp, log*, pow, tanh, expj, dB conversions, angle away from the special points) and inverse pairs through pow/log10 - transcendental accuracy at arbitrary arguments has no decision procedure in the tools present.'),
  'C19': dict(design='4/C19', text='PARTIAL. awgn (real and complex) with the input symbolic: the added noise is g_i*sigma for ONE sigma with sigma^2 * (#components) == mean|x|^2 * 10^(-snr/10) (polynomial identity, g_i = the unit normals of the seed); '
              'rng(seed) from a havocked mt19937: every state word afterwards is a term over the symbolic 32-bit seed alone (all generators replay); replay of the 7 generator forms after interleaved draws for concrete seeds; randi with the raw 32-bit '
